@@ -34,6 +34,8 @@ type refineCfg struct {
 	// peer may send a data message, which makes that goroutine close the connection with 1008
 	CloseRead bool `json:"closeread"`
 	PeerData  bool `json:"peerdata"`
+	// PeerPing: the peer sends one Ping at a seeded moment (the model's PeerMay "ping"): whoever reads it answers with a Pong
+	PeerPing bool `json:"peerping,omitempty"`
 	// Between (with Ctx): the application cancels the Writer's context itself, between the chunk it has written and Close --
 	// the message is open, no frame is in flight, a second writer is queued behind the message lock
 	Between bool `json:"between,omitempty"`
@@ -117,6 +119,13 @@ func runRefine(cfg refineCfg, rep *Report) {
 		go func() {
 			time.Sleep(d)
 			send(ws.Frame{Fin: true, Op: ws.OpText, Payload: []byte("unexpected")})
+		}()
+	}
+	if cfg.PeerPing {
+		d := time.Duration(rng.Intn(1500)) * time.Microsecond
+		go func() {
+			time.Sleep(d)
+			send(ws.Frame{Fin: true, Op: ws.OpPing, Payload: []byte("peer")})
 		}()
 	}
 	if cfg.PeerClose {
@@ -258,6 +267,7 @@ func init() {
 			if *kind != "mix" && *kind != "cr" {
 				cfg.CloseRead, cfg.PeerData = false, false
 			}
+			cfg.PeerPing = rng.Intn(3) == 0
 			if rng.Intn(2) == 0 {
 				cfg.Stretch, cfg.StretchUS = stretchPoints[rng.Intn(len(stretchPoints))], 100+rng.Intn(1500)
 			}
